@@ -241,12 +241,12 @@ func (c *Conn) availLocked(now time.Time) (n int, headErr bool, next time.Time) 
 	st := c.in
 	if c.Endless && c.endlessArmed && len(st.segs) == 0 && !st.eof {
 		// a sender that never stops: whenever the queue runs dry there is more
-		junk := make([]byte, 64)
+		junk := make([]byte, 2048) // more than any read asks for: every read is filled to the brim
 		for i := range junk {
 			junk[i] = byte(0xa5 ^ (c.endlessN + i))
 		}
 		c.endlessN += len(junk)
-		st.segs = append(st.segs, seg{data: junk, solo: true})
+		st.segs = append(st.segs, seg{data: junk})
 	}
 	st.headAt(now)
 	for i := range st.segs {
